@@ -103,22 +103,51 @@ class C04:
             inp = fg.gen_state(rng, nin, photons)
             if i % 9 == 8:
                 inp = inp + [0]      # wrong length -> ValueError
-            cases.append(dict(kind="dist", prog=prog, cid=cid, input=inp))
+            cases.append(dict(kind="dist", prog=prog, cid=cid, input=inp, reuse=(i % 3 == 2)))
         return cases
 
     def _circuit(self, c):
         _, pool = cg.run_impl(c["prog"])
         return pool[c["cid"]]
 
-    def _dist(self, circ, inp, backend):
-        s = emulator.Sampler(circ, lw.State(list(inp)), backend=backend)
+    def _dist(self, circ, inp, backend, prev=None):
+        if prev is not None:
+            # reuse: the Sampler object first serves another configuration (same optics, different herald
+            # photon numbers), is read, and is then re-pointed at the case's circuit - the distribution must
+            # be the one of the configuration it has NOW
+            s = emulator.Sampler(prev, lw.State(list(inp)), backend=backend)
+            s.probability_distribution  # noqa: B018
+            s.circuit = circ
+            s.input_state = lw.State(list(inp))
+        else:
+            s = emulator.Sampler(circ, lw.State(list(inp)), backend=backend)
         return {tuple(k.s): float(v) for k, v in s.probability_distribution.items()}
+
+    def _prev_circuit(self, c):
+        if not c.get("reuse"):
+            return None
+        prog = copy.deepcopy(c["prog"])
+        changed = False
+        for o in prog:
+            if o[0] == "herald":
+                o[2] = 1 - o[2] if o[2] in (0, 1) else o[2] - 1
+                changed = True
+        if not changed:
+            return None
+        try:
+            _, pool = cg.run_impl(prog)
+            prev = pool[c["cid"]]
+            prev.U_full  # noqa: B018
+            return prev
+        except Exception:  # noqa: BLE001
+            return None
 
     def impl(self, c):
         circ = self._circuit(c)
+        prev = self._prev_circuit(c) if len(c["input"]) == circ.input_modes else None
         out = {}
         for b in ("permanent", "slos"):
-            r = core.guarded(lambda b=b: self._dist(circ, c["input"], b))
+            r = core.guarded(lambda b=b: self._dist(circ, c["input"], b, prev))
             if "ok" in r:
                 r = {"ok": sorted([list(k), v] for k, v in r["ok"].items())}
             out[b] = r
